@@ -18,7 +18,7 @@ def sh(cmd, cwd=wt, timeout=1800):
 subprocess.run("git -C /repo worktree remove --force %s 2>/dev/null; git -C /repo worktree add -q --detach %s HEAD" % (wt, wt), shell=True, check=True)
 try:
     diff = os.path.join(src, letter + ".diff")
-    demos = [f for f in glob.glob(os.path.join(src, letter + "_demo*")) ]
+    demos = [f for f in glob.glob(os.path.join(src, letter + "_demo*")) + glob.glob(os.path.join(src, "*_" + letter + "_demo*"))]
     assert demos, "no demo"
     demo = demos[0]
     ran = []
@@ -57,12 +57,12 @@ try:
         d = os.path.join("/verif/seeded", sid)
         os.makedirs(d, exist_ok=True)
         shutil.copy(diff, os.path.join(d, "patch.diff"))
-        shutil.copy(demo, os.path.join(d, os.path.basename(demo).replace(letter + "_", "")))
+        shutil.copy(demo, os.path.join(d, "demo_test.go"))
         notes = open(os.path.join(src, letter + ".md")).read() if os.path.exists(os.path.join(src, letter + ".md")) else ""
         meta = {
             "id": sid, "breaks_property": prop,
             "origin": "written by an independent sub-agent that saw only the property text and its own worktree of /repo",
-            "demo": {"file": os.path.basename(demo).replace(letter + "_", ""), "copy_to": pkgdir, "run": democmd},
+            "demo": {"file": "demo_test.go", "copy_to": pkgdir, "run": democmd},
             "needs_to_manifest": "", "confirmed_by_me": ran,
             "author_notes": notes,
             "checks_run": [],
